@@ -26,7 +26,9 @@ Definition CL_DUP_ATTACH : N := 61.    (* C06: an attachment appears twice on on
 Definition CL_ID_ZERO : N := 21.       (* C02: span id 0 *)
 Definition CL_REFUSED_SCOPE : N := 22. (* C02: local span recorded although its scope was refused *)
 Definition CL_PANIC : N := 71.         (* C07: a call panicked *)
-Definition CL_UNSAMPLED : N := 51.     (* C05: record of a trace without sampled root *)
+Definition CL_UNSAMPLED : N := 51.
+Definition CL_MISSING : N := 11.       (* C01: a finished span was not delivered by a later complete cycle *)
+Definition CL_DUPLICATE : N := 12.     (* C01: a finished span was delivered more often than it has parents in that trace *)     (* C05: record of a trace without sampled root *)
 
 Record verdict := mkV { v_clause : N; v_known : N; v_step : N }.
 
@@ -355,11 +357,44 @@ Definition check_refused_scope (l : list frame_log) : list verdict :=
         if existsb (fun r => existsb (N.eqb (rc_id r)) ids) recs then [mkV CL_REFUSED_SCOPE K7 ridx] else []
     end) (reports l).
 
+(* ---------------------------------------------------------------- C01 *)
+Fixpoint count_records (tr id : N) (rs : list (N * N * list record * list (N * N * N))) : nat :=
+  match rs with
+  | [] => O
+  | (_, _, recs, _) :: rs' =>
+      (length (filter (fun r => (rc_trace r =? tr) && (rc_id r =? id)) recs) + count_records tr id rs')%nat
+  end.
+
+(* a complete cycle (begin ... process) that begins after action index i *)
+Fixpoint cycle_after (i : N) (begun : bool) (l : list frame_log) : bool :=
+  match l with
+  | [] => false
+  | f :: l' =>
+      match fl_act f with
+      | ACBegin => cycle_after i (i <? fl_idx f) l'
+      | ACProcess => if begun then true else cycle_after i false l'
+      | _ => cycle_after i begun l'
+      end
+  end.
+
+Definition check_delivered_once (l : list frame_log) (big_rings : bool) : list verdict :=
+  if negb (installed_default l && negb (installed_cancelable l) && big_rings) then [] else
+  let rs := reports l in
+  flat_map (fun f =>
+    flat_map (fun it =>
+      if ti_sampled it then
+        let expected := length (filter (fun it' => ti_sampled it' && (ti_trace it' =? ti_trace it)) (fin_items f)) in
+        let got := count_records (ti_trace it) (fin_id f) rs in
+        (if Nat.ltb expected got then [mkV CL_DUPLICATE K_NONE (fin_start f)] else []) ++
+        (if Nat.ltb got expected && cycle_after (fin_done f) false l then [mkV CL_MISSING K_NONE (fin_start f)] else [])
+      else []) (fin_items f)) (finishes l).
+
 (* ---------------------------------------------------------------- per property *)
 Definition oracle (prop : N) (s0 : sys) (h : list (action * obs)) : list verdict :=
   let l := trace_run s0 1 0 h in
   let big := 1000 <=? s_ringcap s0 in
   match prop with
+  | 1 => check_delivered_once l big
   | 2 => check_id_zero l ++ check_refused_scope l ++ check_unsampled l
   | 3 => check_whole l big ++ check_hold l
   | 4 => check_cancelled l
